@@ -30,9 +30,10 @@ Fixpoint nodup_b (l : list nat) : bool :=
 
 (* ---- the invariant ------------------------------------------------------------------------------------- *)
 
-(* every listed child is an existing element or text node (fragments are transparent, documents are roots) *)
+(* every listed child is an existing element or text node (fragments are transparent, documents are roots)
+   made by the same document as the node that lists it *)
 Definition children_ok (h : heap) (n : nat) : bool :=
-  forallb (fun c => valid h c && negb (is_frag h c) && negb (is_doc h c)) (children h n).
+  forallb (fun c => valid h c && negb (is_frag h c) && negb (is_doc h c) && Nat.eqb (creator h c) (creator h n)) (children h n).
 (* every child's parent link names the node that lists it *)
 Definition parent_ok (h : heap) (n : nat) : bool :=
   negb (is_tree h n) || forallb (fun c => opt_eqb (parent h c) (Some n)) (children h n).
@@ -42,9 +43,11 @@ Definition nodup_ok (h : heap) (n : nat) : bool := negb (is_tree h n) || nodup_b
 Definition owner_ok (h : heap) (n : nat) : bool := opt_eqb (owner h n) (Some (creator h n)) && is_doc h (creator h n).
 (* no node is its own ancestor *)
 Definition acyclic_ok (h : heap) (n : nat) : bool := rooted (length h) h n.
+(* text nodes are leaves *)
+Definition leaf_ok (h : heap) (n : nat) : bool := negb (is_text h n) || negb (nonempty (children h n)).
 
 Definition wf_b (h : heap) : bool :=
-  forallb (fun n => children_ok h n && parent_ok h n && nodup_ok h n && owner_ok h n && acyclic_ok h n) (ids h).
+  forallb (fun n => children_ok h n && parent_ok h n && nodup_ok h n && owner_ok h n && acyclic_ok h n && leaf_ok h n) (ids h).
 
 (* ---- admissible arguments ("detached or fragment arguments") ------------------------------------------- *)
 
@@ -67,6 +70,9 @@ Definition adm_arg (h : heap) (self c : nat) : bool :=
   receiver h self && valid h c && negb (Nat.eqb c self) &&
   (if is_frag h c then Nat.eqb (creator h c) (creator h self) else true) && adm_items h self (items h c).
 
+(* attribute maps are outside the child-list model (correspondence only) *)
+Definition no_attrs (h : heap) : bool := forallb (fun n => match attrs h n with [] => true | _ => false end) (ids h).
+
 Definition adm_op (h : heap) (o : op) : bool :=
   match o with
   | OCreateDoc => true
@@ -77,8 +83,8 @@ Definition adm_op (h : heap) (o : op) : bool :=
   | OPop p _ => receiver h p
   | OExtend p o => is_frag h o && adm_arg h p o
   | OExtendList p cs => receiver h p && adm_items h p cs
-  | ONormalize p => receiver h p
-  | OClone c => valid h c && negb (is_doc h c)
+  | ONormalize p => is_tree h p && no_attrs h     (* on a fragment receiver: correspondence only *)
+  | OClone c => valid h c && negb (is_doc h c) && no_attrs h
   | OSetAttr _ _ _ => false     (* attribute maps are outside the child-list model: correspondence only *)
   end.
 
@@ -121,6 +127,31 @@ Definition receiver_of (o : op) : option nat :=
   | _ => None
   end.
 
+(* ---- what the theorems say about one step ------------------------------------------------------------- *)
+
+Definition is_edit (o : op) : bool :=
+  match o with
+  | OAppend _ _ | OInsert _ _ _ | OInsertBefore _ _ _ | OInsertAfter _ _ _ | OReplaceChild _ _ _ | ORemoveChild _ _
+  | OPop _ _ | OSetItem _ _ _ | OExtend _ _ | OExtendList _ _ => true
+  | _ => false
+  end.
+
+Definition is_create (o : op) : bool :=
+  match o with OCreateDoc | OCreateElem _ _ | OCreateText _ _ | OCreateFrag _ => true | _ => false end.
+
+(* the operations whose invariant preservation is proved (attribute assignment is tied to the code by correspondence only) *)
+Definition covered (o : op) : bool := is_edit o || is_create o || match o with OClone _ | ONormalize _ => true | _ => false end.
+
+(* M2 for one step: the receiver's child list is what the list model predicts and no other child list moves;
+   where the list model raises, the operation raises the same error and leaves the whole heap as it was *)
+Definition refines (h : heap) (o : op) : Prop :=
+  match expected h o, receiver_of o with
+  | EList l, Some p => (exists r, snd (step h o) = ROk r) /\
+                       forall m, children (fst (step h o)) m = if Nat.eqb m p then l else children h m
+  | ERaise k, _ => step h o = (h, RCrash k)
+  | _, _ => True
+  end.
+
 (* a whole history is admissible when every step is, in the state it is applied to *)
 Fixpoint adm_hist (h : heap) (ops : list op) : bool :=
   match ops with
@@ -151,6 +182,10 @@ Definition spec_next (h : heap) (n : nat) : option nat :=
   | None => None
   end.
 
+(* n sits in the list of a fragment that is also its parentNode (a fragment held in an attribute) *)
+Definition listed_in_frag (h : heap) (n : nat) : bool :=
+  match parent h n with Some p => negb (is_tree h p) && mem n (children h p) | None => false end.
+
 Definition root_of (h : heap) (n : nat) : nat := last (chain (length h) h n) n.
 
 (* position of [o] relative to [s] in document order *)
@@ -165,12 +200,28 @@ Definition spec_compare (h : heap) (s o : nat) : Z :=
        | _, _ => POS_DISCONNECTED
        end.
 
-(* does a raw parentNode walk from n leave the tree edges (i.e. meet a stale link)? *)
-Fixpoint stale_walk (fuel : nat) (h : heap) (n : nat) : bool :=
+(* does the raw parentNode walk from n run in circles?  (In a consistent tree this can only happen through the
+   stale parentNode link of a root -- a removed node or a clone -- that leads back into its own tree.) *)
+Fixpoint raw_cyclic (fuel : nat) (h : heap) (n : nat) : bool :=
   match fuel with
   | O => true
-  | S f => match parent h n with
-           | None => false
-           | Some p => if opt_eqb (up h n) (Some p) then stale_walk f h p else true
-           end
+  | S f => match parent h n with None => false | Some p => raw_cyclic f h p end
   end.
+
+(* ---- deep clones: equal as trees, disjoint from everything that existed -------------------------------- *)
+
+Definition same_node (h h' : heap) (m : nat) : Prop :=
+  kind_of h' m = kind_of h m /\ children h' m = children h m /\ parent h' m = parent h m /\
+  owner h' m = owner h m /\ attrs h' m = attrs h m /\ creator h' m = creator h m.
+
+(* [h'] keeps every node of [h] exactly as it is (and may have more) *)
+Definition ext (h h' : heap) : Prop := length h <= length h' /\ forall m, m < length h -> same_node h h' m.
+
+(* trees without identities *)
+Inductive tree := T (k : option kind) (kids : list tree).
+
+Fixpoint shape (F : nat) (h : heap) (n : nat) : tree :=
+  match F with O => T None [] | S f => T (kind_of h n) (map (shape f h) (children h n)) end.
+
+(* every node below n (n included) lies in [lo, length h) *)
+Definition within (lo : nat) (h : heap) (n : nat) : Prop := forall F m, In m (dfs F h n) -> lo <= m < length h.
